@@ -135,12 +135,21 @@ def pyIndex (len : Nat) (i : Int) : Option Nat :=
 
 /-- `prepare_attributes(attrs, dyn_attributes, i18n_attributes, ns_attributes, drop_ns)`.
 Attribute names are compared after ASCII lowering (the generators keep case games ASCII). -/
+def isDropped (dropNs : List Str) (ns : Str) (value : Str) : Bool :=
+  dropNs.contains ns || (ns == XMLNS_NS && dropNs.contains value)
+
+/-- the names `prepare_attributes` drops: those of the attributes whose resolved namespace (`nsOf`, recorded by the
+parser on each attribute) is a language namespace, or that declare one (`xmlns:p="<language uri>"`).
+Before the D-18a fix the namespace was taken from `ns_attrs.items()` paired *by position*. -/
+def dropNames (q : Quirks) (attrs : List Attr) (nsOf : Attr → Str) (nsAttrs : List ((Str × Str) × Tok)) (dropNs : List Str) : List Str :=
+  if q.zipPairing then
+    ((attrs.zip nsAttrs).filter (fun (a, ((ns, _), _)) => isDropped dropNs ns a.value.str)).map (fun (a, _) => a.name.str)
+  else (attrs.filter (fun a => isDropped dropNs (nsOf a) a.value.str)).map (·.name.str)
+
 def prepareAttributes (q : Quirks) (attrs : List Attr) (dyn : List (Option Tok × Tok))
-    (i18nAttrs : List (Str × Option Str)) (nsAttrs : List ((Str × Str) × Tok)) (dropNs : List Str) :
+    (i18nAttrs : List (Str × Option Str)) (nsOf : Attr → Str) (nsAttrs : List ((Str × Str) × Tok)) (dropNs : List Str) :
     Option (List PAttr) :=
-  -- drop: positional pairing of attrs with ns_attrs items (quirk D-18a lives in this zip)
-  let drop : List Str := ((attrs.zip nsAttrs).filter (fun (_, ((ns, _), v)) =>
-      dropNs.contains ns || (ns == XMLNS_NS && dropNs.contains v.str))).map (fun (a, _) => a.name.str)
+  let drop : List Str := dropNames q attrs nsOf nsAttrs dropNs
   let init : List PAttr × List (Str × Int) := attrs.foldl (fun (acc : List PAttr × List (Str × Int)) a =>
     if drop.contains a.name.str then acc else
       let pa : PAttr := ⟨some a.name.str, some a.value, a.quote.str, a.space.str, a.eq.str, none⟩
